@@ -76,7 +76,8 @@ Contract(SM, 'Stream.read_response', dict(S, response=TOpt(TObj('HTTPResponse'))
     loops={0: {'invariant': [('reported-what-was-read', '%s == %s' % (NDELTA, DELTA), {'C04'}), PFX[0], PFX[1],
                              ('whole-lines', '%s == old(%s) or endswith(%s, b"\\n")' % (C, C, C), {'C08'}),
                              ('lines-iff-progress', '(len(header_lines) == 0) == (%s == old(%s))' % (C, C), {'C08'}),
-                             ('size-cap', 'bytes_read <= 32768 and bytes_read >= 0', {'C08'})]}},
+                             ('size-cap', 'bytes_read <= 32768 and bytes_read >= 0', {'C08'}),
+                             ('lines-have-a-line-break', 'implies(len(header_lines) > 0, "\\n" in b"".join(header_lines))', {'C09'})]}},
     ensures=[('block-is-wire-bytes', '%s == %s' % (NDELTA, DELTA), {'C04'}),
              ('ends-with-blank-line', 'endswith(%s, b"\\n\\r\\n") or endswith(%s, b"\\n\\n")' % (C, C), {'C08'}),
              ('parsed', 'result.status_code is not None', {'C08'})],
@@ -124,14 +125,13 @@ Contract(CH, 'ChunkedTransferReader.read_chunk_body', CR, ret=TTuple(TBytes(), T
              ('fragment', 'implies(old(self._bytes_left) > 0, result[0] == result[1] and len(result[0]) <= old(self._bytes_left) and self._bytes_left == old(self._bytes_left) - len(result[0]))', {'C08'}),
              ('end-of-chunk', 'implies(old(self._bytes_left) == 0, result[0] == b"" and len(result[1]) <= 2)', {'C08'}),
              ('cut-short-is-an-error', 'implies(old(self._bytes_left) == 0, endswith(result[1], b"\\n"))', {'C08'})],
-    raises={'NetworkError': [('only-when-cut-short', 'self._connection.eof or self._connection.failed', {'C08'})], 'ProtocolError': [], 'ValueError': []},
-    replay='httpstream:replay_truncated_chunked',
-    note='ValueError from readline (over-long terminator line) is NOT converted here: a C09 matter (recorded there)')
+    raises={'NetworkError': [('only-when-cut-short', 'self._connection.eof or self._connection.failed', {'C08'})], 'ProtocolError': []},
+    replay='httpstream:replay_chunked')
 Contract(CH, 'ChunkedTransferReader.read_trailer', CR, ret=TBytes(), prop='C04/C08/C09', modifies=[CC, 'self._connection.eof', 'self._connection.failed'], locals={'trailer_data_list': TList(TBytes())},
     loops={0: {'invariant': [('joined-is-what-was-read', 'b"".join(trailer_data_list) == %s' % CDELTA, {'C04', 'C08'}), ('grows', 'startswith(%s, old(%s))' % (CC, CC))]}},
     ensures=[('raw-is-what-was-read', 'result == %s' % CDELTA, {'C04', 'C08'}), ('grows', 'startswith(%s, old(%s))' % (CC, CC)),
              ('cut-short-is-an-error', 'endswith(result, b"\\n")', {'C08'})],
-    raises={'NetworkError': [('only-when-cut-short', 'self._connection.eof or self._connection.failed', {'C08'})], 'ValueError': []}, replay='httpstream:replay_truncated_chunked')
+    raises={'NetworkError': [('only-when-cut-short', 'self._connection.eof or self._connection.failed', {'C08'})], 'ProtocolError': []}, replay='httpstream:replay_chunked')
 
 lib.MODULE_CONSTS['ChunkedTransferReader'] = VFunc('class', 'ChunkedTransferReader')
 Assumed(CH, 'ChunkedTransferReader.__init__', {'self': TObj('ChunkedTransferReader'), 'connection': TObj('HConnection'), 'read_size': TInt()}, defaults={'read_size': 4096},
@@ -149,8 +149,8 @@ Contract(SM, 'Stream._read_body_by_chunk', RBC, prop='C04/C08/C09/C19', defaults
                              ('in-chunk', 'reader._bytes_left is not None and reader._bytes_left >= 0'),
                              ('no-flush-yet', 'self.g_flushes == old(self.g_flushes)', {'C19'})]}},
     ensures=PFX + [('block-is-wire-bytes', '%s == %s' % (NDELTA, DELTA), {'C04'}), ('one-flush-at-end', 'self.g_flushes == old(self.g_flushes) + 1', {'C19'})],
-    raises={'NetworkError': [('only-when-cut-short', 'self._connection.eof or self._connection.failed', {'C08'})], 'ProtocolError': [], 'ValueError': []},
-    note='ValueError: a malformed trailer line (fields.parse strict) and readline limits are not converted: C09 known finding')
+    raises={'NetworkError': [('only-when-cut-short', 'self._connection.eof or self._connection.failed', {'C08'})], 'ProtocolError': []},
+    replay='httpstream:replay_hostile_body')
 
 # ---- framing decisions: the specification is RFC 7230 section 3.3.3 as quoted by the property ------------------------------------
 TE = 'response.fields.get("Transfer-Encoding", "")'
@@ -182,17 +182,15 @@ Contract(SM, 'Stream.read_body', RBD, prop='C04/C08/C09', defaults={'file': None
                          'all_of("ChunkedTransferReader._connection")', 'all_of("ChunkedTransferReader._read_size")'],
     ensures=[('no-body-consumes-nothing', 'implies(%s, %s == old(%s))' % (NOBODY, C, C), {'C08'}),
              ('only-this-message', 'startswith(%s, old(%s)) and startswith(%s, old(%s))' % (N_, N_, C, C), {'C04'})],
-    raises={'NetworkError': [], 'ProtocolError': [], 'ValueError': [], 'KeyError': []})
+    raises={'NetworkError': [], 'ProtocolError': [], 'KeyError': []})
 
 # ---- request side (C04 / C16): what listeners are told is what is written ----------------------------------------------------------
 _tb = z3.Function('request_to_bytes', z3.IntSort(), z3.StringSort())
 Assumed('wpull/protocol/http/request.py', 'RawRequest.to_bytes', {'self': TObj('HTTPRequest')}, name='HTTPRequest.to_bytes', ret=TBytes(), raises={'AssertionError': []},
         note='serialisation of the request: its own contract is C16 (specs/request.py)')
-if 'HTTPRequest.prepare_for_send' not in CONTRACTS:
-    Assumed('wpull/protocol/http/request.py', 'Request.prepare_for_send', {'self': TObj('HTTPRequest'), 'full_url': TBool()}, name='HTTPRequest.prepare_for_send',
-            defaults={'full_url': False}, modifies=['self.fields.map', 'self.fields.count', 'self.resource_path'], raises={'AssertionError': []})
 lib.BUILTINS['hasattr'] = (lambda orig: (lambda ex, st, node, obj, name: VBool(True) if isinstance(obj, VRef) and ex.find_method(obj.cls, lib.zstr(name.term)) else orig(ex, st, node, obj, name)))(lib.BUILTINS['hasattr'])
 Contract(SM, 'Stream.write_request', dict(S, request=TObj('HTTPRequest'), full_url=TBool()), prop='C04/C09', defaults={'full_url': False},
+    requires=['request._url_info is not None', 'truthy(request._url)', 'truthy(request.method)', 'truthy(request.version)'],
     modifies=['self._connection.wire_out', 'self._data_event_dispatcher.notified_out', 'request.fields.map', 'request.fields.count', 'request.resource_path'],
     ensures=[('reported-what-was-written', 'self._data_event_dispatcher.notified_out[len(old(self._data_event_dispatcher.notified_out)):] == self._connection.wire_out[len(old(self._connection.wire_out)):]', {'C04'}),
              ('grows', 'startswith(self._connection.wire_out, old(self._connection.wire_out)) and startswith(self._data_event_dispatcher.notified_out, old(self._data_event_dispatcher.notified_out))', {'C04'})],
